@@ -37,6 +37,11 @@ SCALAR = ["B", "H", "I", "Q", "b", "h", "i", "q", "x"]
 ORDERED = [">h", "<h", "!i", ">i", "<i", ">H", "<I", ">q", "!Q", ">I"]
 
 
+# formats of more than one character that still hold ONE value: byte strings
+# (binary blobs, names) and a value followed by pad bytes
+ONEVALUE = ["4s", "6s", "1s", "I4x", "H2x"]
+
+
 def scalar(f):
     return len(f) == 1 or f in ORDERED
 
@@ -55,7 +60,8 @@ def plan(tier, seed):
 
 def gen_case(rng):
     def decls(prefix, lo, hi):
-        return [[f"{prefix}{i}", rng.choice(SCALAR * 3 + MULTI + ORDERED)]
+        return [[f"{prefix}{i}", rng.choice(SCALAR * 3 + MULTI + ORDERED
+                                            + ONEVALUE)]
                 for i in range(rng.randint(lo, hi))]
     base = decls("b", 0, 4)
     derived = decls("d", 1, 5)
@@ -74,6 +80,12 @@ def gen_case(rng):
 
 
 def value_for(rng, fmt):
+    if fmt.endswith("s"):
+        n = int(fmt[:-1])
+        v = bytes(rng.getrandbits(8) for _ in range(n))
+        return v[:-1] + b"\0" if rng.random() < 0.3 else v
+    if fmt.endswith("x") and len(fmt) > 1:
+        return value_for(rng, fmt[0])
     if fmt == "x":
         return rng.randint(-10 ** 9, 10 ** 9) / 100000
     if fmt in ORDERED:
@@ -452,8 +464,10 @@ def second_task(case, sess, allvars, vals, res):
         return None
     # (what the first task reads now: Python's writes, and the elements the
     # program stored through a pointer)
-    expect = [[pname, n, f, getattr(obj, n)] for pname, obj, n, f in allvars
-              if not n.startswith("t_")]
+    def enc(v):
+        return {"__bytes__": v.hex()} if isinstance(v, bytes) else v
+    expect = [[pname, n, f, enc(getattr(obj, n))]
+              for pname, obj, n, f in allvars if not n.startswith("t_")]
     hs = str(1 + case["valseed"] % 997)
     env = dict(os.environ, PYTHONHASHSEED=hs)
     try:
@@ -487,6 +501,8 @@ def key_layout(case, n, other=None):
 
 
 def same(fmt, got, want):
+    if fmt in ONEVALUE:
+        return type(got) is type(want) and got == want
     if fmt == "x":
         return round(got * 100000) == round(want * 100000)
     return got == want
